@@ -159,6 +159,15 @@ def history_jobs(ctx, quick):
     return jobs
 
 
+def detected(ctx, res):
+    """the named deviations TLC found in the tree under test (probe histories)"""
+    if not res.printed:
+        raise tlc.MachineryError("probe histories: no answer from CfgTrace")
+    p = res.printed[0]
+    ctx.note("deviations_detected_in_tree", sorted(p["asis"]) if p["probe"] == "ok" else "no combination of named deviations reproduces the probe histories")
+    return sorted(p["asis"])
+
+
 def run_replay(ctx):
     """./check C18 --replay PATH: re-execute the recorded case on the current tree and validate it again"""
     import random
@@ -180,6 +189,12 @@ def run_replay(ctx):
     if new["kind"] == "aborted":
         raise tlc.MachineryError("replayed case aborted in the decoder: %s" % new["sig"])
     new["source"] = "replay"
+    if new["kind"] == "graph":
+        wd = tlc.workdir("c18p")
+        pp = os.path.join(wd, "probe.ndjson")
+        tlc.write_ndjson(pp, [c18.probe_trace()])
+        new["asis"] = detected(ctx, tlc.run("CfgTrace", "CfgTrace.cfg", workers=1, env={"TRACE_FILE": pp}, tag="c18probe", xmx="1g"))
+        tlc.cleanup(wd)
     verdicts = validate(ctx, [new], "replay", "V:CfgTrace")
     judge(ctx, [new], verdicts)
     ctx.case(key=("replay", t["isa"]))
@@ -207,15 +222,27 @@ def run(ctx):
         mcfgs, rejects = [], []
         ctx.note("development_run_without_model_checks", True)
     gens = generators(quick)
+    sjobs, hjobs = sweep_jobs(ctx, quick), history_jobs(ctx, quick)
+    if os.environ.get("C18_FAST"):          # development aid (mutation runs): a SUBSET of the traces of the full run
+        keep = ("x86", "sparc", "mips", "sh2", "rv32i", "z80")
+        gens = [g for g in gens if g[1] in ("unit", "var", "links")]
+        sjobs = [j for j in sjobs if j[0] in keep]
+        hjobs = [j for j in hjobs if j[0] in keep]
+        ctx.note("development_run_on_a_subset", True)
     wd = tlc.workdir("c18g")
     # Python drivers first (fork before any thread exists)
     pool = mp.Pool(tlc.NCPU)
-    a_sweeps = pool.map_async(c18.sweep_job, sweep_jobs(ctx, quick), chunksize=1)
-    a_hist = pool.map_async(c18.history_job, history_jobs(ctx, quick), chunksize=1)
+    a_sweeps = pool.map_async(c18.sweep_job, sjobs, chunksize=1)
+    a_hist = pool.map_async(c18.history_job, hjobs, chunksize=1)
     big = max(2, tlc.NCPU // 4)
+
+    probe_path = os.path.join(wd, "probe.ndjson")
+    tlc.write_ndjson(probe_path, [c18.probe_trace()])
 
     def tlc_job(job):
         kind, cfg, arg = job
+        if kind == "P":
+            return tlc.run("CfgTrace", "CfgTrace.cfg", workers=1, env={"TRACE_FILE": probe_path}, tag="c18probe", timeout=3000, xmx="1g")
         if kind == "M":
             return tlc.run("Cfg", cfg, tag="c18m_" + cfg[:-4], timeout=3400, workers=big, xmx="6g")
         if kind == "R":
@@ -225,8 +252,10 @@ def run(ctx):
                        spool=os.path.join(wd, tag + ".spool"), tag="c18g_" + tag, timeout=3400, workers=big, xmx="4g")
 
     jobs = [("M", c, None) for c in mcfgs] + [("G", g[0], (g[1], g[4])) for g in gens] + [("R", c, None) for c, _ in rejects]
+    jobs.append(("P", "CfgTrace.cfg", None))
     with mp.pool.ThreadPool(len(jobs)) as tp:
         res = tp.map(tlc_job, jobs)
+    asis = detected(ctx, res[-1])
     for (kind, cfg, arg), r in zip(jobs, res):
         if kind == "R":
             continue
@@ -257,6 +286,7 @@ def run(ctx):
         st = o["stats"]
         nb[tag] = nb.get(tag, 0) + st["behaviours"]
         ctx.count("behaviours_without_host_isa", st["unhosted"])
+        ctx.count("replay_workers_stopped_after_timeouts", st.get("truncated", 0))
         ctx.count("concretisation_mismatch", st["mismatch"])
         for b, c in st["branches"].items():
             br = ctx.extra.setdefault("add_vertex_branches_replayed", {})
@@ -265,9 +295,9 @@ def run(ctx):
             t["source"] = ("G:" if t["dom"] else "Gdrift:") + tag
             traces.append(t)
     for cfg, tag, hosts, which, sim, stride in gens:
-        if nb.get(tag, 0) == 0:
+        if nb.get(tag, 0) == 0 and not ctx.extra.get("replay_workers_stopped_after_timeouts"):
             raise tlc.MachineryError("generator %s produced no replayable behaviour" % cfg)
-        ctx.count("behaviours_replayed_" + tag, nb[tag])
+        ctx.count("behaviours_replayed_" + tag, nb.get(tag, 0))
     # sweeps
     aborted = {}
     for o in outs_s:
@@ -297,6 +327,8 @@ def run(ctx):
     ctx.rng.shuffle(traces)
     for i, t in enumerate(traces):
         t["t"] = i + 1          # one id space for the verdicts
+        if t["kind"] == "graph":
+            t["asis"] = asis
     verdicts = validate(ctx, traces, "all", "V:CfgTrace")
     judge(ctx, traces, verdicts)
     account(ctx, traces)
